@@ -52,6 +52,10 @@ pub enum Fault {
     TruncateHash { file: usize, alg: usize, keep: usize },
     /// append a hex digit to the recorded hash
     ExtendHash { file: usize, alg: usize },
+    /// the recorded hash with the case of one hex letter flipped (a single-byte
+    /// corruption: bit 0x20), or upper-cased as a whole
+    #[serde(rename = "CaseFlipHash")]
+    CaseFlipHash { file: usize, alg: usize, pos: usize, whole: bool },
     CorruptSize { file: usize, delta: i64 },
     DropChecksum { file: usize, alg: usize },
     DropSize { file: usize },
@@ -232,7 +236,13 @@ fn gen_fault(rng: &mut Rng, files: &[FileSpec]) -> Fault {
     let len = files[file].content.len();
     let nalg = files[file].algs.len();
     let alg = if nalg > 0 { files[file].algs[rng.usize_below(nalg)] } else { rng.usize_below(6) };
-    match rng.below(20) {
+    match rng.below(22) {
+        20 | 21 => Fault::CaseFlipHash {
+            file,
+            alg,
+            pos: rng.usize_below(128),
+            whole: rng.chance(1, 3),
+        },
         0 | 1 => Fault::BitFlip {
             file,
             off: rng.usize_below(len.max(1)),
@@ -308,6 +318,7 @@ fn fault_name(f: &Fault) -> &'static str {
         Fault::CorruptHash { .. } => "corrupt_record_hash",
         Fault::TruncateHash { .. } => "truncate_record_hash",
         Fault::ExtendHash { .. } => "extend_record_hash",
+        Fault::CaseFlipHash { .. } => "case_flip_record_hash",
         Fault::CorruptSize { .. } => "corrupt_record_size",
         Fault::DropChecksum { .. } => "drop_record_line",
         Fault::DropSize { .. } => "drop_record_line",
@@ -435,6 +446,29 @@ fn apply_fault(f: &Fault, files: &[FileSpec], disk: &mut Vec<Option<Vec<u8>>>, r
             for (a, h) in r.checksums.iter_mut() {
                 if a == alg && *keep < h.len() && *keep > 0 {
                     h.truncate(*keep);
+                    return true;
+                }
+            }
+            false
+        }
+        Fault::CaseFlipHash { file, alg, pos, whole } => {
+            let r = &mut recs[fi(*file)];
+            for (a, h) in r.checksums.iter_mut() {
+                if a == alg && h.bytes().any(|c| c.is_ascii_alphabetic()) {
+                    if *whole {
+                        let up = h.to_ascii_uppercase();
+                        if up == *h {
+                            *h = h.to_ascii_lowercase();
+                        } else {
+                            *h = up;
+                        }
+                    } else {
+                        let mut b = h.clone().into_bytes();
+                        let n = b.len();
+                        let at = (0..n).map(|k| (pos + k) % n).find(|&i| b[i].is_ascii_alphabetic()).unwrap();
+                        b[at] ^= 0x20;
+                        *h = String::from_utf8(b).unwrap();
+                    }
                     return true;
                 }
             }
@@ -1007,7 +1041,8 @@ impl Property for C12 {
                 }
 
                 // size
-                let got = distinfo.verify_size(&p);
+                let disk_len = on_disk.map(|c| c.len()).unwrap_or(0);
+                let got = metered!(ctx, 64, distinfo.verify_size(&p));
                 match (rec.size, on_disk) {
                     (Some(n), Some(c)) if c.len() as u64 == n => {
                         ctx.probe("verdict-size-ok");
@@ -1084,7 +1119,7 @@ impl Property for C12 {
 
                 // each of the six algorithms
                 for a in 0..6 {
-                    let got = distinfo.verify_checksum(&p, ALGS[a]);
+                    let got = metered!(ctx, disk_len + 64, distinfo.verify_checksum(&p, ALGS[a]));
                     let recd = rec.checksums.iter().find(|(x, _)| *x == a).map(|(_, h)| h.clone());
                     match (recd, on_disk) {
                         (Some(h), Some(c)) => {
@@ -1170,7 +1205,7 @@ impl Property for C12 {
                 }
 
                 // verify_checksums: one result per recorded checksum, in order
-                let all = distinfo.verify_checksums(&p);
+                let all = metered!(ctx, (disk_len + 64) * rec.checksums.len().max(1), distinfo.verify_checksums(&p));
                 ensure!(
                     all.len() == rec.checksums.len(),
                     "verify-checksums-count",
@@ -1359,6 +1394,9 @@ impl Property for C12 {
         String::new()
     }
 
+    fn work_factor(&self) -> Option<u64> {
+        Some(512)
+    }
     fn rule(&self) -> String {
         "Each run stores 1..5 generated files (distfiles incl. DIST_SUBDIR names with colliding tails and patch \
          look-alikes that are distfiles; patch files; contents empty/binary/text/patch text with $NetBSD lines) in a \
